@@ -27,7 +27,7 @@ def floors(ctx):
     q = ctx.tier == "quick"
     return {"evaluations": 5000 if q else 50000, "small_count_default_connectivity": 50,
             "hostile_stream_runs": 100, "reproducibility_checked": 500, "graphs_with_links": 1000,
-            "large_count_runs": 50}
+            "large_count_runs": 50, "fresh_process_reproducibility_checks": 3}
 
 
 class ScriptedStream:
@@ -151,8 +151,52 @@ def run_hostile(ctx, count, cname, conn, ensure, mode):
         random.randint, random.sample = saved
 
 
+FRESH = r"""
+import json, random, sys
+from edgegraph.builder import randgraph as rg
+from edgegraph.structure import DirectedEdge, UnDirectedEdge
+cfg = json.loads(sys.argv[1])
+cls = {"DirectedEdge": DirectedEdge, "UnDirectedEdge": UnDirectedEdge}[cfg["cls"]]
+def adj(u):
+    return [[(type(l).__name__, l.vertices[0].i, l.vertices[1].i) for l in v.links] for v in u.vertices]
+out = []
+for _ in range(3):
+    random.seed(cfg["seed"])          # no library object has been created before the first of these calls
+    out.append(adj(rg.randgraph(count=cfg["count"], edge=cls, ensurelink=cfg["ensure"])))
+print(json.dumps(out))
+"""
+
+
+def fresh_process_reproducibility(ctx, count, cname, ensure, seed):
+    """random.seed(s); randgraph(...) as the very first use of the library in a new interpreter, three times."""
+    import json
+    import subprocess
+    import sys
+
+    from egverif import common
+
+    cfg = {"count": count, "cls": cname, "ensure": ensure, "seed": seed}
+    r = subprocess.run([sys.executable, "-B", "-c", FRESH, json.dumps(cfg)], capture_output=True, text=True, timeout=300,
+                       env=dict(__import__("os").environ, PYTHONPATH=common.repo_dir()))
+    ctx.evaluated()
+    ctx.count("fresh_process_reproducibility_checks")
+    case = dict(cfg, fresh=True, conn=None, stream=None)
+    if r.returncode != 0:
+        ctx.violation("fresh_process:raised", f"randgraph in a fresh interpreter failed: {r.stderr[-300:]}", case)
+        return
+    a, b, c = json.loads(r.stdout)
+    ctx.nontrivial(("fresh", count, cname, ensure, seed, str(a)))
+    if not (a == b == c):
+        which = "first_call_differs" if b == c else "calls_differ"
+        ctx.violation(f"not_reproducible:fresh_process:{which}", f"random.seed({seed}); randgraph(count={count}, {cname}, "
+                      f"ensurelink={ensure}) as the first library call of a new interpreter gave {a}, then {b} and {c}", case)
+
+
 def run(ctx):
     quick = ctx.tier == "quick"
+    if ctx.shard == 0:
+        for n, (count, cname, ensure) in enumerate(((15, "DirectedEdge", True), (6, "UnDirectedEdge", False), (40, "DirectedEdge", True))):
+            fresh_process_reproducibility(ctx, count, cname, ensure, 2024 + n + ctx.seed)
     counts = list(range(1, 13)) if quick else list(range(1, 31)) + [40, 60]
     nseeds = 12 if quick else 12
     base = ctx.seed * 100000 + ctx.shard * 1000
@@ -195,6 +239,11 @@ def run(ctx):
 
 
 def replay(ctx, case):
+    if case.get("fresh"):
+        fresh_process_reproducibility(ctx, case["count"], case["cls"], case["ensure"], case["seed"])
+        ctx.nontrivial("replay-a")
+        ctx.nontrivial("replay-b")
+        return
     if case.get("default"):
         random.seed(case["seed"])
         res = oracles.outcome(rg.randgraph)
